@@ -160,7 +160,7 @@ theorem StoresRel.setStore {R} (hR : StoreRel R) (s : Sys) (i : Nat) (st : Store
   intro v
   rw [storeOf_setStore]
   by_cases hv : v = i ∧ (s.node? i).isSome
-  · simp only [hv, and_self, if_true]; rw [hv.1]; exact h
+  · simp only [hv, and_self, if_true]; exact h
   · simp only [hv, if_false]; exact hR.refl _
 
 /-! ### durability round -/
@@ -188,5 +188,335 @@ theorem runRound_frame {R} (hR : StoreRel R) (s : Sys) (ln q : Nat) (acks : List
     SameOwners s (runRound s ln q acks p).1 ∧ StoresRel R s (runRound s ln q acks p).1 := by
   unfold runRound
   exact applyVotes_frame hR s ln acks p _
+
+end WK.Repl
+
+namespace WK.Repl
+
+/-! ### recovery repair, barrier -/
+
+theorem repairPages_frame {R} (hR : StoreRel R) (ps : List PSpec) (ln : Nat) (sel : Selection) (keep : Nat) :
+    ∀ (fuel : Nat) (s : Sys) (frm : Nat) (prev : Ident) (cur : RState) (fp : Bool),
+      SameOwners s (repairPages s ps ln sel keep fuel frm prev cur fp).1 ∧
+      StoresRel R s (repairPages s ps ln sel keep fuel frm prev cur fp).1 := by
+  intro fuel
+  induction fuel with
+  | zero => intro s frm prev cur fp; exact ⟨SameOwners.refl _, StoresRel.refl hR _⟩
+  | succ fuel ih =>
+    intro s frm prev cur fp
+    unfold repairPages
+    by_cases h1 : frm > sel.index
+    · simp only [h1, if_true]; exact ⟨SameOwners.refl _, StoresRel.refl hR _⟩
+    · simp only [h1, if_false]
+      cases hf : fetchFromSupporters s ps ln frm sel.index prev sel.supporters none with
+      | error e => exact ⟨SameOwners.refl _, StoresRel.refl hR _⟩
+      | ok props =>
+        simp only
+        cases hl : lastOf props with
+        | none => exact ⟨SameOwners.refl _, StoresRel.refl hR _⟩
+        | some lp =>
+          simp only
+          split
+          · exact ⟨SameOwners.refl _, StoresRel.refl hR _⟩
+          · cases hrep : (s.storeOf ln).replace cur (if fp = true then keep else cur.leo) props lp.m.last with
+            | error e => exact ⟨SameOwners.refl _, StoresRel.refl hR _⟩
+            | ok st =>
+              simp only
+              have hso := SameOwners.setStore s ln st
+              have hsr := StoresRel.setStore hR s ln st (hR.replace _ _ _ _ _ _ hrep)
+              cases hld : st.load with
+              | error e => exact ⟨hso, hsr⟩
+              | ok loaded =>
+                simp only
+                split
+                · exact ⟨hso, hsr⟩
+                · have := ih (s.setStore ln st) (lp.m.last + 1) (lastIdent lp.entries) loaded false
+                  exact ⟨hso.trans this.1, StoresRel.trans hR hsr this.2⟩
+
+theorem repairPrefix_frame {R} (hR : StoreRel R) (s : Sys) (ps : List PSpec) (ln : Nat) (sel : Selection) :
+    SameOwners s (repairPrefix s ps ln sel).1 ∧ StoresRel R s (repairPrefix s ps ln sel).1 := by
+  have triv : SameOwners s s ∧ StoresRel R s s := ⟨SameOwners.refl _, StoresRel.refl hR _⟩
+  unfold repairPrefix
+  cases hl : (s.storeOf ln).load with
+  | error e => exact triv
+  | ok loc =>
+    simp only
+    split
+    · exact triv
+    · split
+      · exact triv
+      · rename_i previous hprev
+        split
+        · exact triv
+        · have hp := repairPages_frame hR ps ln sel loc.committed (sel.index + 2) s (loc.committed + 1) previous loc true
+          generalize hrp : repairPages s ps ln sel loc.committed (sel.index + 2) (loc.committed + 1) previous loc true = rp at hp
+          obtain ⟨s1, r1⟩ := rp
+          simp only at hp
+          cases r1 with
+          | error e => exact hp
+          | ok fc =>
+            obtain ⟨frm, current⟩ := fc
+            simp only
+            by_cases hz : frm = 1 ∧ sel.index = 0
+            · simp only [hz, and_self, if_true]
+              cases hrep : (s1.storeOf ln).replace current 0 [] 0 with
+              | error e => exact hp
+              | ok st =>
+                simp only
+                have hso := SameOwners.setStore s1 ln st
+                have hsr := StoresRel.setStore hR s1 ln st (hR.replace _ _ _ _ _ _ hrep)
+                have : SameOwners s (s1.setStore ln st) ∧ StoresRel R s (s1.setStore ln st) :=
+                  ⟨hp.1.trans hso, StoresRel.trans hR hp.2 hsr⟩
+                split <;> exact this
+            · simp only [hz, if_false]
+              split <;> exact hp
+
+theorem writeBarrier_frame {R} (hR : StoreRel R) (s : Sys) (ln : Nat) (a : Authority) (rec : RState) (acks : List Ack) :
+    SameOwners s (writeBarrier s ln a rec acks).1 ∧ StoresRel R s (writeBarrier s ln a rec acks).1 := by
+  have triv : SameOwners s s ∧ StoresRel R s s := ⟨SameOwners.refl _, StoresRel.refl hR _⟩
+  unfold writeBarrier
+  split
+  · exact triv
+  · split
+    · exact triv
+    · dsimp only
+      split
+      · exact triv
+      · rename_i m es hseal
+        have := runRound_frame hR s ln a.q acks ⟨m, [0], rec.leo⟩
+        generalize runRound s ln a.q acks ⟨m, [0], rec.leo⟩ = rr at this
+        obtain ⟨s', ok, out⟩ := rr
+        simp only at this ⊢
+        split <;> exact this
+
+end WK.Repl
+
+namespace WK.Repl
+
+/-! ### owner steps (install / commit): node `i`'s channel state and the stores move, nothing else -/
+
+def OwnerStep (i : Nat) (s s' : Sys) : Prop :=
+  s'.n = s.n ∧ s'.cap = s.cap ∧ (∀ j, (s'.node? j).map (·.up) = (s.node? j).map (·.up)) ∧
+  (∀ j, j ≠ i → (s'.node? j).map (·.chan) = (s.node? j).map (·.chan))
+
+theorem OwnerStep.refl (i : Nat) (s : Sys) : OwnerStep i s s := ⟨rfl, rfl, fun _ => rfl, fun _ _ => rfl⟩
+
+theorem OwnerStep.trans {i : Nat} {a b c : Sys} (h1 : OwnerStep i a b) (h2 : OwnerStep i b c) : OwnerStep i a c :=
+  ⟨h2.1.trans h1.1, h2.2.1.trans h1.2.1, fun j => (h2.2.2.1 j).trans (h1.2.2.1 j),
+   fun j hj => (h2.2.2.2 j hj).trans (h1.2.2.2 j hj)⟩
+
+theorem SameOwners.toOwnerStep {s s' : Sys} (i : Nat) (h : SameOwners s s') : OwnerStep i s s' :=
+  ⟨h.1, h.2.1, fun j => (h.2.2 j).2, fun j _ => (h.2.2 j).1⟩
+
+theorem setChan_frame {R} (hR : StoreRel R) {s : Sys} {i : Nat} {nd : NodeSt} (h : s.node? i = some nd) (c : Option QChan) :
+    OwnerStep i s (s.setNode i { nd with chan := c }) ∧ StoresRel R s (s.setNode i { nd with chan := c }) := by
+  refine ⟨⟨rfl, rfl, fun j => ?_, fun j hj => ?_⟩, fun v => ?_⟩
+  · rw [node?_setNode h]; by_cases hj : j = i
+    · subst hj; simp [h]
+    · simp [hj]
+  · rw [node?_setNode h]; simp [hj]
+  · rw [storeOf_setNode h]; by_cases hv : v = i
+    · subst hv; simp [Sys.storeOf, h]; exact hR.refl _
+    · simp [hv]; exact hR.refl _
+
+abbrev Framed (R : Store → Store → Prop) (i : Nat) (s s' : Sys) : Prop := OwnerStep i s s' ∧ StoresRel R s s'
+
+theorem Framed.refl {R} (hR : StoreRel R) (i : Nat) (s : Sys) : Framed R i s s :=
+  ⟨OwnerStep.refl i s, StoresRel.refl hR s⟩
+
+theorem Framed.trans {R} (hR : StoreRel R) {i : Nat} {a b c : Sys} (h1 : Framed R i a b) (h2 : Framed R i b c) :
+    Framed R i a c := ⟨h1.1.trans h2.1, StoresRel.trans hR h1.2 h2.2⟩
+
+theorem Framed.ofSame {R} {i : Nat} {s s' : Sys} (h : SameOwners s s' ∧ StoresRel R s s') : Framed R i s s' :=
+  ⟨h.1.toOwnerStep i, h.2⟩
+
+theorem installFinish_frame {R} (hR : StoreRel R) (i : Nat) (ch : QChan) (a : Authority)
+    (fin : Sys × Except Err RState) : Framed R i fin.1 (installFinish i ch a fin).1 := by
+  obtain ⟨s2, r2⟩ := fin
+  cases r2 with
+  | error e => exact Framed.refl hR i s2
+  | ok frontier =>
+    simp only [installFinish]
+    cases hn2 : s2.node? i with
+    | none => exact Framed.refl hR i s2
+    | some nd' => exact setChan_frame hR hn2 _
+
+theorem installRecover_frame {R} (hR : StoreRel R) (s : Sys) (i : Nat) (ch : QChan) (a : Authority)
+    (ps : List PSpec) (acks : List Ack) : Framed R i s (installRecover s i ch a ps acks).1 := by
+  unfold installRecover
+  split
+  · exact Framed.refl hR i s
+  · cases hrec : recoverPrefix s a.q ps with
+    | error e => exact Framed.refl hR i s
+    | ok sel =>
+      simp only
+      have f1 := Framed.ofSame (i := i) (repairPrefix_frame hR s ps i sel)
+      generalize repairPrefix s ps i sel = rp at f1 ⊢
+      obtain ⟨s1, r1⟩ := rp
+      cases r1 with
+      | error e => exact f1
+      | ok recovered =>
+        simp only
+        refine Framed.trans hR f1 (Framed.trans hR ?_ (installFinish_frame hR i ch a _))
+        split
+        · exact Framed.ofSame (writeBarrier_frame hR s1 i a recovered acks)
+        · exact Framed.refl hR i s1
+
+theorem install_frame {R} (hR : StoreRel R) (s : Sys) (i : Nat) (a : Authority) (ps : List PSpec) (acks : List Ack) :
+    Framed R i s (install s i a ps acks).1 := by
+  unfold install
+  cases hn : s.node? i with
+  | none => exact Framed.refl hR i s
+  | some nd =>
+    simp only
+    split
+    · exact Framed.refl hR i s
+    · split
+      · exact Framed.refl hR i s
+      · exact Framed.trans hR (setChan_frame hR hn _) (installRecover_frame hR _ i _ a ps acks)
+
+theorem commitRetry_frame {R} (hR : StoreRel R) (s : Sys) (i : Nat) (ch : QChan) (r : Retained) (acks : List Ack) :
+    Framed R i s (commitRetry s i ch r acks).1 := by
+  unfold commitRetry
+  have f := Framed.ofSame (i := i) (runRound_frame hR s i ch.auth.q acks r.p)
+  generalize runRound s i ch.auth.q acks r.p = rr at f ⊢
+  obtain ⟨s', ok, out⟩ := rr
+  simp only
+  split
+  · exact f
+  · cases hn : s'.node? i with
+    | none => exact f
+    | some nd' => exact Framed.trans hR f (setChan_frame hR hn _)
+
+theorem commitFresh_frame {R} (hR : StoreRel R) (s : Sys) (i : Nat) (nd : NodeSt) (hn : s.node? i = some nd)
+    (ch : QChan) (cmd : Cmd) (cs : List Nat) (acks : List Ack) :
+    Framed R i s (commitFresh s i nd ch cmd cs acks).1 := by
+  unfold commitFresh
+  cases hs : sealBusiness ch cmd cs with
+  | none => exact Framed.refl hR i s
+  | some r =>
+    simp only
+    have f0 := setChan_frame hR hn (some { ch with pending := some r })
+    generalize s.setNode i { nd with chan := some { ch with pending := some r } } = s0 at f0 ⊢
+    have f := Framed.ofSame (i := i) (runRound_frame hR s0 i ch.auth.q acks r.p)
+    generalize runRound s0 i ch.auth.q acks r.p = rr at f ⊢
+    obtain ⟨s', ok, out⟩ := rr
+    simp only
+    have f01 := Framed.trans hR f0 f
+    cases hn' : s'.node? i with
+    | none => exact f01
+    | some nd' =>
+      simp only
+      split
+      · split
+        · exact Framed.trans hR f01 (setChan_frame hR hn' _)
+        · exact f01
+      · exact Framed.trans hR f01 (setChan_frame hR hn' _)
+
+theorem commitAdmitted_frame {R} (hR : StoreRel R) (s : Sys) (i : Nat) (nd : NodeSt) (hn : s.node? i = some nd)
+    (ch : QChan) (cmd : Cmd) (cs : List Nat) (acks : List Ack) :
+    Framed R i s (commitAdmitted s i nd ch cmd cs acks).1 := by
+  unfold commitAdmitted
+  split
+  · split
+    · exact Framed.refl hR i s
+    · split
+      · exact Framed.refl hR i s
+      · exact commitRetry_frame hR s i ch _ acks
+  · split
+    · split
+      · split
+        · exact Framed.refl hR i s
+        · exact commitRetry_frame hR s i ch _ acks
+      · exact Framed.refl hR i s
+    · exact commitFresh_frame hR s i nd hn ch cmd cs acks
+
+theorem commit_frame {R} (hR : StoreRel R) (s : Sys) (i : Nat) (e : AuthId) (c : Nat) (cs : List Nat) (acks : List Ack) :
+    Framed R i s (commit s i e c cs acks).1 := by
+  unfold commit
+  cases hn : s.node? i with
+  | none => exact Framed.refl hR i s
+  | some nd =>
+    simp only
+    split
+    · exact Framed.refl hR i s
+    · split
+      · exact Framed.refl hR i s
+      · split
+        · exact Framed.refl hR i s
+        · split
+          · exact Framed.refl hR i s
+          · split
+            · exact Framed.refl hR i s
+            · exact commitAdmitted_frame hR s i nd hn _ _ cs acks
+
+/-! ### whole steps -/
+
+theorem started_frame {R} (hR : StoreRel R) (s : Sys) : StoresRel R s { s with started := true } :=
+  fun v => by
+    have : ({ s with started := true } : Sys).storeOf v = s.storeOf v := rfl
+    rw [this]; exact hR.refl _
+
+/-- every op other than an accepted `cfg` moves stores only through `sync` / `replace` -/
+theorem step_stores {R} (hR : StoreRel R) (s : Sys) (op : Op) (hs : s.started = true) :
+    StoresRel R s (step s op).1 := by
+  obtain ⟨n, q, cap, started, nodes, owners⟩ := s
+  simp only at hs
+  subst hs
+  cases op with
+  | cfg n q cap => simp [step]; exact StoresRel.refl hR _
+  | crash i =>
+    simp only [step]
+    cases hn : Sys.node? ⟨n, q, cap, true, nodes, owners⟩ i with
+    | none => exact StoresRel.refl hR _
+    | some nd =>
+      simp only
+      split
+      · exact StoresRel.refl hR _
+      · intro v; rw [storeOf_setNode hn]
+        by_cases hv : v = i
+        · subst hv; simp [Sys.storeOf, hn]; exact hR.refl _
+        · simp [hv]; exact hR.refl _
+  | restart i =>
+    simp only [step]
+    cases hn : Sys.node? ⟨n, q, cap, true, nodes, owners⟩ i with
+    | none => exact StoresRel.refl hR _
+    | some nd =>
+      simp only
+      split
+      · exact StoresRel.refl hR _
+      · intro v; rw [storeOf_setNode hn]
+        by_cases hv : v = i
+        · subst hv; simp [Sys.storeOf, hn]; exact hR.refl _
+        · simp [hv]; exact hR.refl _
+  | install i a ps acks =>
+    simp only [step]
+    cases hn : Sys.node? ⟨n, q, cap, true, nodes, owners⟩ i with
+    | none => exact StoresRel.refl hR _
+    | some nd =>
+      simp only
+      split
+      · exact StoresRel.refl hR _
+      · split
+        · split
+          · exact StoresRel.refl hR _
+          · split
+            · exact StoresRel.refl hR _
+            · exact (install_frame hR _ i a ps acks).2
+        · split
+          · exact StoresRel.refl hR _
+          · have := (install_frame hR ⟨n, q, cap, true, nodes, (a.id, i) :: owners⟩ i a ps acks).2
+            intro v; exact this v
+  | commit i e c k p acks =>
+    simp only [step]
+    cases hn : Sys.node? ⟨n, q, cap, true, nodes, owners⟩ i with
+    | none => exact StoresRel.refl hR _
+    | some nd =>
+      simp only
+      split
+      · exact StoresRel.refl hR _
+      · split
+        · exact StoresRel.refl hR _
+        · exact (commit_frame hR _ i e c _ acks).2
 
 end WK.Repl
